@@ -484,6 +484,20 @@ def judge(chk, pid, c):
                 found = accessor_violation(s, d)
             if op[0] == "add" and not raised and any(e[0] == op[1].ty() for e in s["before"]["tab"]):
                 found = found or "add_block accepted a second block of type %d" % op[1].ty()
+            if op[0] == "add" and raised and op[1].bad is None and any(e[0] == op[1].ty() for e in s["before"]["tab"]) \
+                    and s["rc"] != common.ERR["ValueError"]:
+                found = found or "add_block of a type that is present raised %s, not ValueError" % errname(s["rc"])
+            if op[0] == "set" and op[1].bad is None and compact_before(s):
+                # assigning through a convenience property replaces the block when present and adds it when absent
+                present = any(e[0] == op[1].ty() for e in s["before"]["tab"])
+                room = any(e[0] == 0 for e in s["before"]["tab"])
+                if (present or room) and raised:
+                    found = found or "assigning the %s property raised %s although the type is %s" % (
+                        SETTER[op[1].kind], errname(s["rc"]), "present (replace)" if present else "absent and a slot is free (add)")
+                elif not raised:
+                    want = (op[1].ty(), hashlib.sha1(bytes(op[1].as_model()[3][0])).hexdigest())
+                    if s["acc"]["get"].get(op[1].ty()) != want:
+                        found = found or "after assigning the %s property its getter does not return the assigned block" % SETTER[op[1].kind]
             if exp is not None and s["rc"] != m["rc"] and (op[0] in ("add", "set")):
                 differs = "outcome of %s differs from Container.step: %s vs %s" % (op[0], errname(s["rc"]), errname(m["rc"]))
             dm = model_accessor_diff(s, m, d)
@@ -496,6 +510,10 @@ def judge(chk, pid, c):
             chk.violation("%s: correspondence broken: %s [%s]" % (pid, differs, label),
                           dict(rep, correspondence="coq/Model/Container.v step vs basictdf.py", theorem="Properties/%s.v" % pid), False)
             diverged = True         # the model has left the code's path: judge the rest with the oracle alone
+
+
+def compact_before(s):
+    return container.compact_violation(s["before"]) is None
 
 
 def finding_key(pid, c, found):
